@@ -28,3 +28,6 @@ Fixpoint ins_key {A} (x : string * A) (l : list (string * A)) : list (string * A
   | y :: r => if str_leb (fst x) (fst y) then x :: l else y :: ins_key x r
   end.
 Definition sort_key {A} (l : list (string * A)) : list (string * A) := fold_right ins_key [] l.
+
+(* which list of cells convert.to_pandas takes from a column: list(col) or col._printable_list() *)
+Inductive cellsrc := SrcList | SrcPrintable.
